@@ -1,13 +1,13 @@
 """
 Recorder + gate controller for the dispatch loop of lemoncheesecake.task (no source change needed).
 
-`patched(rec)` replaces, for the duration of a run, the module globals `Pool`, `Queue`, `handle_task`
-and `skip_task` of `lemoncheesecake.task` by recording wrappers:
+`patched(rec)` replaces, for the duration of a run, the module globals `Pool` and `Queue` of `lemoncheesecake.task`
+by recording wrappers and wraps the `run` / `skip` methods of every task object it sees:
 
   dispatch t      at pool.apply_async(...)                       (main thread)
-  start t         when a pool worker enters handle_task / a directly scheduled skip_task
-  ctx t b         what context.is_task_to_be_skipped returned inside handle_task (b = reason given)
-  mode t run|skip which of run_task / skip_task handle_task chose
+  start t         when a pool worker starts executing what was submitted for t
+  ctx t b         what context.is_task_to_be_skipped returned while a worker handles t (b = reason given)
+  mode t run|skip which of task.run / task.skip was called first for this start
   finish t res    at completed_task_queue.put(task), *before* the put   (worker thread)
   receive t       after completed_tasks_queue.get() returned            (main thread)
   interrupt       when context.enable_task_abort() is called
@@ -207,16 +207,40 @@ class Recorder:
 
 @contextmanager
 def patched(rec):
-    orig = (T.Pool, T.Queue, T.handle_task, T.skip_task, T.run_task)
-    OrigPool, OrigQueue, orig_handle, orig_skip, orig_run = orig
+    """Seams: `Pool` / `Queue` (module globals of lemoncheesecake.task) and the `run` / `skip` methods of the task
+    OBJECTS (the BaseTask interface).  The private helpers of task.py (handle_task, skip_task, run_task, …) are not
+    touched: a refactoring of the dispatch code must not blind the recorder."""
+    orig = (T.Pool, T.Queue)
+    OrigPool, OrigQueue = orig
+
+    def instrument(task, k):
+        """wrap the task object's run / skip once: the first of them called after a `start` is the decision"""
+        if getattr(task, "_lccverif_instrumented", False):
+            return
+        task._lccverif_instrumented = True
+        orig_run, orig_skip = task.run, task.skip
+
+        def run(*args, **kwargs):
+            if getattr(rec._local, "mode_for", None) != k:
+                rec._local.mode_for = k
+                rec._mode(k, "run")
+            return orig_run(*args, **kwargs)
+
+        def skip(context, reason=None, *args, **kwargs):
+            if getattr(rec._local, "mode_for", None) != k:
+                rec._local.mode_for = k
+                rec._mode(k, "skip", reason)
+            return orig_skip(context, reason, *args, **kwargs)
+        task.run, task.skip = run, skip
 
     class RecPool:
         def __init__(self, n):
             self._p = OrigPool(n)
 
-        def apply_async(self, func, args=()):
+        def apply_async(self, func, args=(), kwds=None):
             task = args[0]
             k = rec.tid(task)
+            instrument(task, k)
             with rec.cv:
                 rec.applies += 1
                 if rec.interrupt_at == ("apply", rec.applies) and not rec.interrupted:
@@ -228,6 +252,9 @@ def patched(rec):
             def guarded(*a, **kw):
                 # an exception escaping a pool function is silently dropped by the real Pool and the task never
                 # completes (the run then waits forever): record it so that the hang is detected, not suffered
+                rec._local.in_handle = k
+                rec._local.mode_for = None
+                rec._start(k)
                 try:
                     return func(*a, **kw)
                 except BaseException as e:
@@ -235,25 +262,27 @@ def patched(rec):
                         rec.inflight -= 1
                         rec.rec("died", k, "%s: %s" % (type(e).__name__, e))
                     raise
-            return self._p.apply_async(guarded, args=args)
+                finally:
+                    rec._local.in_handle = None
+            return self._p.apply_async(guarded, args=args, kwds=kwds or {})
 
         def close(self):
             self._p.close()
 
     class RecQueue:
-        def __init__(self):
-            self._q = OrigQueue()
+        def __init__(self, *a, **kw):
+            self._q = OrigQueue(*a, **kw)
             rec._queue = self
 
-        def put(self, task):
+        def put(self, task, *a, **kw):
             k = rec.tid(task)
             with rec.cv:
                 rec.finished += 1
                 rec.inflight -= 1
                 rec.rec("finish", k, type(task.result).__name__.replace("TaskResult", "").lower())
-            self._q.put(task)
+            self._q.put(task, *a, **kw)
 
-        def get(self):
+        def get(self, *a, **kw):
             with rec.cv:
                 rec.gets += 1
                 if rec.interrupt_at == ("get", rec.gets) and not rec.interrupted:
@@ -289,36 +318,13 @@ def patched(rec):
                 rec.rec("receive", rec.tid(task))
             return task
 
-    # the wrappers pass every further argument through: a refactoring that adds a parameter must not blind the recorder
-    def handle_task(task, *args, **kwargs):
-        k = rec.tid(task)
-        rec._local.in_handle = k
-        rec._start(k)
-        try:
-            return orig_handle(task, *args, **kwargs)
-        finally:
-            rec._local.in_handle = None
-
-    def skip_task(task, context, q, reason="", *args, **kwargs):
-        k = rec.tid(task)
-        if getattr(rec._local, "in_handle", None) == k:
-            rec._mode(k, "skip", reason)
-        else:
-            rec._start(k)
-            rec._mode(k, "skip", reason)
-        return orig_skip(task, context, q, reason, *args, **kwargs)
-
-    def run_task(task, *args, **kwargs):
-        rec._mode(rec.tid(task), "run")
-        return orig_run(task, *args, **kwargs)
-
-    T.Pool, T.Queue, T.handle_task, T.skip_task, T.run_task = RecPool, RecQueue, handle_task, skip_task, run_task
+    T.Pool, T.Queue = RecPool, RecQueue
     rec.start_controller()
     try:
         yield rec
     finally:
         rec.stop_controller()
-        T.Pool, T.Queue, T.handle_task, T.skip_task, T.run_task = orig
+        T.Pool, T.Queue = orig
 
 
 def wrap_context(rec, context):
